@@ -239,7 +239,7 @@ def RA(rec, k, props):
     """unit for the k-th read_array instance of rec::read"""
     UNITS.append(Unit('ra.%s.%d' % (rec, k), (rec + '::read', None), lifted_target=r'CdnsDecoder__read_array__%s__read__%d' % (rec, k),
                       contract=instance_contract(k), loops=instance_loops, prelude=P, extern_records=EXT, stubs=DEC_STUBS, gen_stubs=NESTED_RD,
-                      ghost=GH_I, auto_inline=[r'[A-Za-z]+__ctor__\w+', r'[A-Za-z]+__default', r'[A-Za-z]+__reset'],
+                      arrays_uf=False, ghost=GH_I, auto_inline=[r'[A-Za-z]+__ctor__\w+', r'[A-Za-z]+__default', r'[A-Za-z]+__reset'],
                       extra_c='struct seq_u8 g_OpCodesDefault; struct seq_u16 g_RrTypesDefault;\n',
                       setup='  static struct %s obj; struct CdnsDecoder dec;\n  __CPROVER_assume(rd_depth == 1 && rd_topmap && rd_expect_val && !rd_break_pending && !rd_bad && !rd_done1 && (rd_indef1 || rd_left1 > 0) && rd_cnt1 < (1UL << 60));\n' % rec,
                       args=['&dec', '&obj'], props=list(props), timeout=900,
@@ -254,7 +254,7 @@ def R(rec, props=('C08', 'C09', 'C01', 'C03'), inline_reset=True, **kw):
     UNITS.append(Unit('r.' + rec, (rec + '::read', None), contract=reader_contract(rec), loops=reader_loops(rec), prelude=P,
                       extern_records=EXT, stubs=DEC_STUBS, gen_stubs=kw.pop('gen_stubs', []) + NESTED_RD, inline=inl,
                       setup='  struct %s obj; struct CdnsDecoder dec;\n  rd_init();\n' % rec, args=['&obj', '&dec'], props=list(props), timeout=1800, weight=3 if rec in LISTY else 1,
-                      lifted_loops=None if rec in LISTY else lifted_loops, lifted_stub=instance_stubs if rec in LISTY else None, auto_inline=[r'[A-Za-z]+__ctor__\w+', r'[A-Za-z]+__default', r'[A-Za-z]+__reset'],
+                      arrays_uf=False, lifted_loops=None if rec in LISTY else lifted_loops, lifted_stub=instance_stubs if rec in LISTY else None, auto_inline=[r'[A-Za-z]+__ctor__\w+', r'[A-Za-z]+__default', r'[A-Za-z]+__reset'],
                       extra_c='struct seq_u8 g_OpCodesDefault; struct seq_u16 g_RrTypesDefault;\n' if rec in ('StorageParameters', 'BlockParameters', 'FilePreamble') else '',
                       split=False, tier='thorough' if rec == 'QueryResponse' else 'quick',
                       post='  if (g_exc != 0) { CANARY("decoder exception reachable"); }',
